@@ -60,6 +60,13 @@ type c20gen struct {
 
 func (g *c20gen) ident(exported bool) string {
 	g.n++
+	if rapid.IntRange(0, 7).Draw(g.t, "unicode-ident") == 0 {
+		// identifiers whose first letter is not ASCII (1, 2 and 3 byte runes)
+		if exported {
+			return fmt.Sprintf("%s%d", pickS(g.t, []string{"Ü", "Ω", "É", "Ж", "Ḁ"}), g.n)
+		}
+		return fmt.Sprintf("%s%d", pickS(g.t, []string{"ü", "ω", "é", "ж", "ḁ"}), g.n)
+	}
 	if exported {
 		return fmt.Sprintf("%c%d", "ABCDEFGXYZ"[rapid.IntRange(0, 9).Draw(g.t, "id")], g.n)
 	}
